@@ -92,9 +92,13 @@ def havoc_for_loop(ev: Ev, body_stmts, extra_names=(), loop_no=0):
     ghost_mods = set()
     havoc_all = False
 
+    field_mods = []
+
     def note_obj(v):
         if isinstance(v, VRef):
             mutated[v.oid] = v
+        elif isinstance(v, tuple) and v and v[0] == "field":
+            field_mods.append((v[1], v[2]))
 
     def try_eval(node):
         sub = ev.sub(pure=True, spec=True)
@@ -205,6 +209,14 @@ def havoc_for_loop(ev: Ev, body_stmts, extra_names=(), loop_no=0):
         for oid in list(st.heap):
             st.havoc_obj(VRef(oid), "loop%d.h%d" % (loop_no, oid))
     else:
+        for o, fname in field_mods:
+            cur = (o.fields if isinstance(o, Obj) else o.items).get(fname)
+            if isinstance(cur, V) and not isinstance(cur, (VRef, VNone, VFunc)):
+                nv = st.havoc_value(cur, "loop%d.f.%s" % (loop_no, fname))
+                if isinstance(o, Obj):
+                    o.fields[fname] = nv
+                else:
+                    o.items[fname] = nv
         for oid, ref in mutated.items():
             st.havoc_obj(ref, "loop%d.h%d" % (loop_no, oid))
         for g in ghost_mods:
